@@ -556,3 +556,104 @@ def oracle_objects(evs, term, case, findings=None):
             elif lst and all(k <= s_["avail"] for _, k in lst) and s_["avail"] > 0:
                 out.append(("C03", "deadlock reported although every acquire pending on s%d fits in the %d available permits" % (o, s_["avail"]), None))
     return out
+
+
+# ---------------- C15: vector clocks vs happens-before derived from the API-level edges ----------------
+def vle(a, b):
+    """VectorClock's PartialOrd `a <= b`: length rule plus pointwise comparison over the common prefix"""
+    if len(a) > len(b):
+        return False
+    return all(x <= y for x, y in zip(a, b))
+
+
+def oracle_c15(evs, term, case):
+    """For every direct happens-before edge e1 -> e2 derivable from the log (program order, spawn, join, unlock->lock,
+    send->recv, atomic write->read, release->acquire...), clk(e2) must dominate clk(e1); each task's own clock only grows."""
+    out = []
+    attr = attribute(evs, case)
+    last = {}                 # task -> index of its last O event
+    first_of = {}             # child task -> spawn event index of parent
+    last_unlock = {}          # lock object -> list of (write-)unlock event indices
+    last_runlock = {}         # rwlock object -> list of read-unlock event indices
+    writes = {}               # atomic object -> list of write event indices
+    sends = {}                # channel -> list of send event indices (undelivered)
+    releases = {}             # sem -> list of release indices
+    edges = []
+
+    def edge(i, j, why):
+        edges.append((i, j, why))
+
+    for i, e in enumerate(evs):
+        if e.kind != "O":
+            continue
+        t = e.task
+        op = attr[i]
+        if t in last:
+            edge(last[t], i, "program order")
+        elif t in first_of:
+            edge(first_of[t], i, "spawn -> child start")
+        last[t] = i
+        if e.tag in (1, 31) and op is not None:
+            first_of[e.vals[0]] = i
+        if e.tag == 2 and op is not None:
+            c = e.vals[0]
+            if c in last:
+                edge(last[c], i, "child end -> join")
+        if e.tag == 17:
+            last_unlock.setdefault(e.vals[0], []).append(i)
+        if e.tag == 20:
+            # a read guard's release orders only later writers; a write guard's release orders every later lock
+            (last_unlock if e.vals[0] == 1 else last_runlock).setdefault(e.vals[1], []).append(i)
+        if op is None:
+            continue
+        if e.tag in (15, 16) and e.vals[0] != 2:
+            o = int(op[2:])
+            for j in last_unlock.get(o, []):
+                edge(j, i, "unlock -> later lock")
+        if e.tag == 21:
+            o = int(op.split(".")[1])
+            for j in last_unlock.get(o, []):
+                edge(j, i, "unlock -> later lock (condvar re-lock)")
+        if e.tag in (18, 19) and e.vals[1] != 2:
+            o = int(op[2:])
+            for j in last_unlock.get(o, []):
+                edge(j, i, "rwlock write unlock -> later lock")
+            if e.vals[0] == 1:
+                for j in last_runlock.get(o, []):
+                    edge(j, i, "rwlock read unlock -> later write lock")
+        if e.tag == 7:
+            a = int(op[1:].split(".")[0])
+            kind = op.split(".")[1]
+            is_write = kind != "ld" and not (kind == "cas" and e.vals[0] == 0)
+            if kind != "st":
+                for j in writes.get(a, []):
+                    edge(j, i, "atomic write -> later read/rmw")
+            if is_write:
+                writes.setdefault(a, []).append(i)
+        if e.tag == 23 and e.vals[0] == 0:
+            ch = int(op[2:].split(".")[0])
+            sends.setdefault(ch, []).append(i)
+        if e.tag == 24 and e.vals[0] == 0:
+            ch = int(op[2:])
+            if sends.get(ch):
+                edge(sends[ch].pop(0), i, "send -> matching receive" + ("" if case["objs"][ch] == "cu" else " (bounded)"))
+        if e.tag == 12:
+            o = int(op[2:].split(".")[0])
+            releases.setdefault(o, []).append(i)
+    for i, j, why in edges:
+        a, b = evs[i].clk, evs[j].clk
+        if not vle(a, b):
+            tag = None
+            if why.endswith("(bounded)"):
+                # known finding F19: a send on a bounded or rendezvous channel ticks the sender's own clock entry once more
+                # after the message was timestamped; everything else must still be dominated
+                s_ = evs[i].task
+                a2 = list(a)
+                if s_ < len(a2) and a2[s_] >= 1:
+                    a2[s_] -= 1
+                    if vle(a2, b):
+                        tag = "F19"
+            out.append(("C15", "%s: clock %s of task %d's operation is not dominated by clock %s of task %d's later operation" % (why, a, evs[i].task, b, evs[j].task), tag))
+            if len(out) >= 3:
+                break
+    return out
